@@ -15,6 +15,7 @@ EXTENDS Defaults, Json, IOUtils, SequencesExt
 
 CONSTANTS Mode, MaxParams
 
+MC_DevAll == {"D1", "D2", "D3"}
 QualSet == {"", "c", "v", "cv"}
 QSeqs(d) == IF d <= 2 THEN [1..(d + 1) -> QualSet] ELSE [1..(d + 1) -> {"", "c"}]
 NoQuals(d) == [i \in 1..(d + 1) |-> ""]
@@ -33,15 +34,23 @@ AnnBases == {"int", "char", "gpointer", "FooRec", "FooEnum"}
 \*  large record sets are several times slower in TLC.)
 \* `void` by value in parameter / field / constant position is not a C declaration: those 12 cases are
 \* in the model (the property layer is silent on them) but are not rendered by the harness.
-ValSet(B, D) == {[k |-> "val", pos |-> p, ann |-> "", base |-> b, depth |-> Len(q) - 1, quals |-> q] :
+ValSet(B, D) == {[k |-> "val", pos |-> p, ann |-> "", base |-> b, depth |-> Len(q) - 1, quals |-> q, alias |-> FALSE] :
                     b \in B, p \in Positions, q \in UNION {QSeqs(d) : d \in D}}
+\* values declared through a typedef of the namespace (`typedef <spelling> FooAlias;`), in parameter and
+\* return position: every qualifier combination of depth 0..1 targets
+AliasBases == {"int", "guint8", "gboolean", "double", "gsize", "char", "gchar", "gpointer", "GType", "FooRec", "FooEnum",
+               "GList"}
+AliasSet(z) == {[k |-> "val", pos |-> p, ann |-> "", base |-> b, depth |-> Len(q) - 1, quals |-> q, alias |-> TRUE] :
+                    b \in AliasBases, p \in {"param", "return"}, q \in UNION {QSeqs(d) : d \in 0..1}}
+                \cup {[k |-> "val", pos |-> p, ann |-> "", base |-> "void", depth |-> 1, quals |-> q, alias |-> TRUE] :
+                    p \in {"param", "return"}, q \in QSeqs(1)}
 \* supplement: a bare direction annotation (nothing else) on a pointer parameter
-AnnCases(z) == {[k |-> "val", pos |-> "param", ann |-> a, base |-> b, depth |-> d, quals |-> NoQuals(d)] :
+AnnCases(z) == {[k |-> "val", pos |-> "param", ann |-> a, base |-> b, depth |-> d, quals |-> NoQuals(d), alias |-> FALSE] :
                    a \in Anns \ {""}, b \in AnnBases, d \in 1..2}
 RoleSeqs(z) == UNION {[1..n -> Roles] : n \in 0..MaxParams}
 
-Cases(z) == CASE Mode = "types" -> ValSet(AllBases, 0..3) \cup AnnCases(z)
-              [] Mode = "types_q" -> ValSet(AllBases, 0..1) \cup ValSet(RepBases, 2..3) \cup AnnCases(z)
+Cases(z) == CASE Mode = "types" -> ValSet(AllBases, 0..3) \cup AnnCases(z) \cup AliasSet(z)
+              [] Mode = "types_q" -> ValSet(AllBases, 0..1) \cup ValSet(RepBases, 2..3) \cup AnnCases(z) \cup AliasSet(z)
               [] Mode = "witness" -> ValSet(WitnessBases, 0..1)
               [] Mode = "arr" -> {[k |-> "arr", kind |-> kd, roles |-> r] : kd \in Kinds, r \in RoleSeqs(z)}
 
